@@ -6,7 +6,9 @@ d=/verif/seeded/$name
 prop=${2:-$(python3 -c "import json;print(json.load(open('$d/meta.json'))['breaks_property'])")}
 if ! git -C /repo diff --quiet; then echo "/repo has uncommitted changes"; exit 2; fi
 git -C /repo apply $d/patch.diff || { echo "patch does not apply"; exit 2; }
+cp /verif/evidence/$prop.json /tmp/seedtest_evidence_$prop.json 2>/dev/null
 /verif/bin/owvc check $prop --tier quick > /tmp/seedtest_$name.out 2>&1; rc=$?
 git -C /repo checkout -- .
+cp /tmp/seedtest_evidence_$prop.json /verif/evidence/$prop.json 2>/dev/null
 grep -E "^VIOLATION|^owvc:|^KNOWN" /tmp/seedtest_$name.out | cut -c1-300
 if [ $rc -eq 1 ] && grep -q "^VIOLATION property=$prop" /tmp/seedtest_$name.out; then echo "DETECTED $name by $prop"; else echo "MISSED $name by $prop (rc=$rc)"; fi
